@@ -30,6 +30,14 @@ Proof.
   destruct H as [H _]. unfold UINT32_MAX, SIZE_MAX in *. lia.
 Qed.
 
+(* the arithmetic of the bound, once *)
+Lemma small_bounds n : 0 <= n <= UINT32_MAX ->
+  (n >? SIZE_MAX - 1) = false /\ (n + 1 >? SIZE_MAX / 8) = false /\ (n =? SIZE_MAX) = false /\ (UINT64_MAX >? n) = true.
+Proof.
+  intros H. change (SIZE_MAX / 8) with 2305843009213693951. unfold SIZE_MAX, UINT64_MAX, UINT32_MAX in *.
+  repeat split; lia.
+Qed.
+
 Lemma forallb_nth_error {A} (f : A -> bool) : forall (l : list A) n x,
   forallb f l = true -> nth_error l n = Some x -> f x = true.
 Proof.
@@ -256,27 +264,26 @@ Section Ops.
   Proof.
     intros parent tok Hs. unfold set_single_path, add_child.
     destruct parent as [| | | | | |l|ms]; auto.
-    - cbn [small] in Hs. apply andb_true_iff in Hs. destruct Hs as [Hl _].
+    - cbn [small] in Hs. apply andb_true_iff in Hs. destruct Hs as [Hl _]. apply Z.leb_le in Hl.
+      pose proof (zlen_nonneg l) as Hn.
+      destruct (small_bounds (zlen l) (conj Hn Hl)) as (B1 & B2 & B3 & B4).
       change (is_minus tok) with (is_dash tok). destruct (is_dash tok) eqn:Ed.
       + unfold array_add. rewrite Hal. split; [reflexivity|]. apply dash_escapes_ok; exact Ed.
       + destruct (array_index tok) as [i|] eqn:Ei.
-        * destruct (index_some _ _ Ei) as (Hi & Hne & Hv). rewrite Hv.
-          pose proof (zlen_nonneg l) as Hn.
+        * destruct (index_some _ _ Ei) as (Hi & Hne & Hv). rewrite Hv. clear Hv.
           destruct (i >? UINT64_MAX) eqn:Esat.
-          { unfold insert_idx_cb. replace (UINT64_MAX >? zlen l) with true by (unfold UINT64_MAX, UINT32_MAX in *; lia).
-            left. replace (i <=? zlen l) with false by (unfold UINT64_MAX, UINT32_MAX in *; lia). reflexivity. }
-          unfold insert_idx_cb. destruct (i >? zlen l) eqn:E1.
+          { unfold insert_idx_cb. rewrite B4. left.
+            replace (i <=? zlen l) with false; [reflexivity|].
+            symmetry. apply Z.leb_gt. apply Z.gtb_lt in Esat, B4. lia. }
+          clear Esat. unfold insert_idx_cb. destruct (i >? zlen l) eqn:E1.
           { left. replace (i <=? zlen l) with false by lia. reflexivity. }
           replace (i <=? zlen l) with true by lia. unfold array_insert.
           destruct (i >=? zlen l) eqn:E2.
           { assert (i = zlen l) by lia. subst i. unfold array_put_idx_cb.
-            replace (zlen l >? SIZE_MAX - 1) with false by (unfold SIZE_MAX, UINT32_MAX in *; lia).
-            replace (zlen l <? zlen l) with false by lia.
-            replace (zlen l + 1 >? SIZE_MAX / 8) with false by (unfold SIZE_MAX, UINT32_MAX in *; cbn; lia).
-            rewrite Hal. cbn [einval_on_fail]. rewrite array_put_append. split; [|eapply index_escapes_ok; eauto].
+            rewrite B1, Z.ltb_irrefl, B2, Hal. cbn [einval_on_fail]. rewrite array_put_append.
+            split; [|eapply index_escapes_ok; eauto].
             unfold insert_at. rewrite zfirstn_all, zskipn_all by lia. reflexivity. }
-          replace (zlen l =? SIZE_MAX) with false by (unfold SIZE_MAX, UINT32_MAX in *; lia).
-          rewrite Hal. cbn [einval_on_fail]. split; [reflexivity|]. eapply index_escapes_ok; eauto.
+          rewrite B3, Hal. cbn [einval_on_fail]. split; [reflexivity|]. eapply index_escapes_ok; eauto.
         * rewrite (index_none _ Ei). auto.
     - rewrite is_valid_escaping_ok. destruct (escapes_ok tok) eqn:E; cbn [negb]; [|auto].
       rewrite unescape_two_pass_eq_single, object_add_upsert. auto.
@@ -303,10 +310,10 @@ Section Ops.
     - destruct S as [S Es]. rewrite S.
       destruct (gsp_ok_inv _ _ _ _ G) as [(l & idx & sat & -> & V & -> & E) | (ms & -> & V & -> & E)].
       + unfold set_single_path. rewrite (dash_no_index _ _ _ V), V.
-        cbn [small] in Hs. apply andb_true_iff in Hs. destruct Hs as [Hl _].
+        cbn [small] in Hs. apply andb_true_iff in Hs. destruct Hs as [Hl _]. apply Z.leb_le in Hl.
         pose proof (znth_some_range _ _ _ E) as R. unfold insert_idx_cb.
         replace (idx >? zlen l) with false by lia. unfold array_put_idx_cb.
-        replace (idx >? SIZE_MAX - 1) with false by (unfold SIZE_MAX, UINT32_MAX in *; lia).
+        destruct (small_bounds idx ltac:(lia)) as (B1 & _). rewrite B1.
         replace (idx <? zlen l) with true by lia. cbn [einval_on_fail put_child].
         rewrite array_put_arr_put by lia. auto.
       + unfold set_single_path. rewrite V. cbn [negb put_child].
@@ -315,7 +322,7 @@ Section Ops.
   Qed.
 
   (* ---- remove: the child must exist; array_list_del_idx / json_object_object_del take it out *)
-  Definition drop_child (parent : jv) (st : step) : jv :=
+  Definition drop_child (parent : jv) (st : PtrModel.step) : jv :=
     match parent, st with
     | JArr l, inr i => JArr (zfirstn i l ++ zskipn (i + 1) l)
     | JObj ms, inl k => JObj (object_del ms k)
@@ -342,7 +349,6 @@ Section Ops.
   Lemma small_drop_child parent st : small parent = true -> small (drop_child parent st) = true.
   Proof.
     intros H. destruct parent as [| | | | | |l|ms], st as [k|i]; cbn [drop_child]; try exact H.
-    - cbn [small] in *. apply small_object_del. exact H.
     - cbn [small] in *. apply andb_true_iff in H. destruct H as [Hl Hc].
       unfold zfirstn, zskipn. rewrite forallb_app.
       destruct (forallb_split small (Z.to_nat i) l Hc) as [H1 _].
@@ -351,6 +357,7 @@ Section Ops.
       { rewrite !zlen_length, app_length, firstn_length, skipn_length. lia. }
       replace (zlen (firstn (Z.to_nat i) l ++ skipn (Z.to_nat (i + 1)) l) <=? UINT32_MAX) with true by lia.
       reflexivity.
+    - cbn [small] in *. apply small_object_del. exact H.
   Qed.
 
   (* ---- the pointer lookups of the operations *)
@@ -437,10 +444,11 @@ Section Ops.
       + unfold remove_result. cbn [r_parent r_key_in_parent r_index_in_parent].
         destruct (gsp_ok_inv _ _ _ _ S) as [(l & idx & sat & -> & V & -> & Ex) | (ms & -> & V & -> & Ex)].
         * cbn [is_array is_object drop_child]. rewrite last_last.
-          cbn [small] in Hp. apply andb_true_iff in Hp. destruct Hp as [Hl _].
+          cbn [small] in Hp. apply andb_true_iff in Hp. destruct Hp as [Hl _]. apply Z.leb_le in Hl.
           pose proof (znth_some_range _ _ _ Ex) as R.
-          rewrite Z.mod_small by (unfold UINT32_MAX in *; lia). unfold array_del_idx.
-          replace (idx >? SIZE_MAX - 1) with false by (unfold SIZE_MAX, UINT32_MAX in *; lia).
+          assert (Hm : idx mod 4294967296 = idx) by (apply Z.mod_small; unfold UINT32_MAX in Hl; lia).
+          rewrite Hm. unfold array_del_idx.
+          destruct (small_bounds idx ltac:(lia)) as (B1 & _). rewrite B1.
           replace ((idx >=? zlen l) || (idx + 1 >? zlen l)) with false by lia. reflexivity.
         * cbn [is_array is_object drop_child]. rewrite remove_key_name. reflexivity.
       + apply small_subst; [exact Hs|]. apply small_drop_child. exact Hp.
@@ -570,7 +578,7 @@ Section Ops.
     | Some op, Some p, Some v =>
         if bytes_eqb op n_test then
           match spec_get doc p with
-          | Some (_, n) => Bool.eqb (rfc_equal n v) (jv_equal v n)
+          | Some (_, n) => Bool.eqb (rfc_equal v n) (jv_equal v n)
           | None => true
           end
         else true
@@ -578,7 +586,7 @@ Section Ops.
     end.
 
   (* the guard of one step: representation bound; the document is not JSON null (second
-     recorded deviation: the NULL pointer is no document for json_pointer_get*); no test
+     recorded deviation: the NULL pointer is no document for json_pointer_get); no test
      across number representations *)
   Definition step_guard (doc o : jv) : bool :=
     small doc && negb (is_null doc) && test_agrees doc o.
@@ -599,7 +607,7 @@ Section Ops.
     { intros add. unfold apply_add_replace. destruct (field elem s_value); [|exact I]. destruct add; exact I. }
     assert (M : forall move, agree (apply_move_copy al doc elem None move) None).
     { intros move. unfold apply_move_copy. destruct (field elem s_from) as [j|]; [|exact I]. destruct j; exact I. }
-    repeat match goal with |- context [if ?b then _ else _] => destruct b end; auto. exact I.
+    repeat match goal with |- context [if ?b then _ else _] => destruct b end; auto; exact I.
   Qed.
 
   Lemma apply_op_conforms doc o : step_guard doc o = true -> agree (apply_op al doc o) (spec_op doc o).
@@ -701,3 +709,423 @@ Section Ops.
     intros target ops Hn G. unfold patch_apply. rewrite (not_null_is_null _ Hn). apply apply_ops_conforms. exact G.
   Qed.
 End Ops.
+
+(* ================================================================ F. the patch document; malformed patches *)
+
+(* The model has value semantics and [patch_apply_full] returns the patch document it was
+   given: "the patch document itself is never modified" holds trivially here.  What makes it
+   a statement about json_patch.c is (a) the repaired code copies values out of the patch
+   document instead of linking its nodes into the result ([placed_value]) and (b) the driver
+   compares the patch document after the call with an independently built twin, and the node
+   address sets of result and patch document, on every run. *)
+Theorem patch_unchanged : forall al target patch, snd (patch_apply_full al target patch) = patch.
+Proof. reflexivity. Qed.
+
+(* no operation object, whatever it is, makes the code hand NULL to strcmp/strlen/strncmp *)
+Lemma apply_op_no_ub al doc o : apply_op al doc o <> OUB.
+Proof.
+  assert (T : forall path, apply_test doc o path <> OUB).
+  { intros path. unfold apply_test. destruct (field o s_value) as [v1|]; [|discriminate].
+    destruct (get_c doc path) as [q v2|]; [|discriminate]. destruct (jv_equal v1 v2); discriminate. }
+  assert (R : forall path, apply_remove doc path <> OUB).
+  { intros path. unfold apply_remove. destruct (get_internal_c doc path); [|discriminate].
+    destruct (remove_result doc r); discriminate. }
+  assert (A : forall path add, apply_add_replace al doc o path add <> OUB).
+  { intros path add. unfold apply_add_replace. destruct (field o s_value); [|discriminate].
+    destruct (if add then None else _); [discriminate|]. destruct (set_c _ _ _ _ _); discriminate. }
+  assert (M : forall path move, apply_move_copy al doc o path move <> OUB).
+  { intros path move. unfold apply_move_copy. destruct (field o s_from) as [j|]; [|discriminate].
+    destruct j; cbn [from_field]; try discriminate. destruct path as [p|]; [|discriminate].
+    unfold move_copy_strings. destruct (prefix_verdict move s p); try discriminate;
+      (destruct (_ && _); [discriminate|]); (destruct (ptr_get_internal doc s); [|discriminate]);
+      cbn [negb]; try discriminate;
+      (destruct move;
+       [destruct (remove_result doc r); [|discriminate]; destruct (ptr_set_with_array_cb _ _ _ _ _); discriminate
+       |destruct (ptr_set_with_array_cb _ _ _ _ _); discriminate]). }
+  unfold apply_op. destruct (field o s_op) as [jop|]; [|discriminate].
+  destruct jop; cbn [op_field]; try discriminate.
+  destruct (field o s_path) as [jpath|]; [|discriminate].
+  destruct jpath; cbn [path_field]; try discriminate;
+    repeat match goal with |- context [if ?b then _ else _] => destruct b end; auto; discriminate.
+Qed.
+
+Lemma apply_ops_no_ub al : forall ops i doc, apply_ops al ops i doc <> PUB.
+Proof.
+  induction ops as [|o rest IH]; intros i doc; cbn [apply_ops]; [discriminate|].
+  pose proof (apply_op_no_ub al doc o) as N. destruct (apply_op al doc o); [apply IH|discriminate|congruence].
+Qed.
+
+(* for ALL values used as patch documents (and all targets, all allocators): never UB; a value
+   that is not an array is refused as a whole (EFAULT); an element that is not an operation
+   object, or lacks / mistypes a field, or names no operation, is an error at its index *)
+Theorem malformed_is_error : forall al target patch, patch_apply al target patch <> PUB.
+Proof.
+  intros al target patch. unfold patch_apply. destruct (is_null target); [discriminate|].
+  destruct patch; try discriminate. apply apply_ops_no_ub.
+Qed.
+
+Theorem not_an_array_is_refused : forall al target patch,
+  (forall ops, patch <> JArr ops) -> patch_apply al target patch = PArgs.
+Proof.
+  intros al target patch H. unfold patch_apply. destruct (is_null target); [reflexivity|].
+  destruct patch; try reflexivity. exfalso. eapply H. reflexivity.
+Qed.
+
+(* a well-formed operation object has a string "op" naming an operation and a string "path"
+   (RFC 6902 section 4); anything else stops the run at that index with EINVAL *)
+Definition op_wellformed (o : jv) : bool :=
+  match op_string o n_op, op_string o n_path with
+  | Some op, Some _ =>
+      bytes_eqb op n_test || bytes_eqb op n_remove || bytes_eqb op n_add ||
+      bytes_eqb op n_replace || bytes_eqb op n_move || bytes_eqb op n_copy
+  | _, _ => false
+  end.
+
+Theorem malformed_op_is_einval : forall al doc o,
+  op_wellformed o = false -> apply_op al doc o = OErr EINVAL doc.
+Proof.
+  intros al doc o. unfold op_wellformed, op_string, op_member, apply_op.
+  destruct o as [| | | | | |l|ms]; try reflexivity. cbn [field]. rewrite !object_get_member.
+  change s_op with n_op. change s_path with n_path.
+  destruct (member ms n_op) as [jop|]; [|reflexivity].
+  destruct jop as [| | | | |op| |]; cbn [op_field]; try reflexivity.
+  destruct (member ms n_path) as [jpath|]; [|reflexivity].
+  destruct jpath as [| | | | |p| |]; cbn [path_field]; try reflexivity.
+  - (* a JSON null path: every operation answers EINVAL *)
+    intros _. unfold apply_test, apply_remove, apply_add_replace, apply_move_copy, move_null_path.
+    cbn [get_c get_internal_c set_c field]. rewrite !object_get_member.
+    repeat match goal with |- context [if ?b then _ else _] => destruct b end; try reflexivity;
+      repeat match goal with |- context [match member ms ?k with _ => _ end] => destruct (member ms k) end;
+      try reflexivity; match goal with |- context [from_field ?j] => destruct j end; reflexivity.
+  - change s_test with n_test. change s_remove with n_remove. change s_add with n_add.
+    change s_replace with n_replace. change s_move with n_move. change s_copy with n_copy.
+    intros H. repeat (apply orb_false_iff in H; destruct H as [H ?]).
+    repeat match goal with E : bytes_eqb _ _ = false |- _ => rewrite E; clear E end. reflexivity.
+Qed.
+
+(* ================================================================ F'. where the "test" guard holds *)
+From JC Require EqProofs.
+
+(* json_object_equal and the RFC's equality can only differ on a number compared with a number of
+   the other representation kind (integer node against double node).  [same_repr a b]: wherever
+   [a] and [b] are compared position by position, numbers meet numbers of the same kind
+   (integers within the range of their C type). *)
+Definition int_ok (v : jv) : bool :=
+  match v with
+  | JInt z => (INT64_MIN <=? z) && (z <=? INT64_MAX)
+  | JUint z => (0 <=? z) && (z <=? UINT64_MAX)
+  | _ => true
+  end.
+
+Section All2t.
+  Context {A B : Type} (f : A -> B -> bool).
+  Fixpoint all2t (la : list A) (lb : list B) : bool :=      (* true as soon as one list ends *)
+    match la, lb with
+    | x :: ta, y :: tb => f x y && all2t ta tb
+    | _, _ => true
+    end.
+End All2t.
+
+Fixpoint same_repr (a b : jv) {struct a} : bool :=
+  match a, b with
+  | JDouble _ _, JDouble _ _ => true
+  | JDouble _ _, JInt _ | JDouble _ _, JUint _ => false
+  | JInt _, JDouble _ _ | JUint _, JDouble _ _ => false
+  | JInt _, JInt _ | JInt _, JUint _ | JUint _, JInt _ | JUint _, JUint _ => int_ok a && int_ok b
+  | JArr la, JArr lb => all2t (fun x y => same_repr x y) la lb
+  | JObj la, JObj lb =>
+      forallb (fun kv => match member lb (fst kv) with Some w => same_repr (snd kv) w | None => true end) la
+  | _, _ => true
+  end.
+
+Lemma two1074_pos : 0 < two1074.
+Proof. unfold two1074. apply Z.pow_pos_nonneg; lia. Qed.
+
+Lemma scaled_eqb x y : (x * two1074 =? y * two1074) = (x =? y).
+Proof.
+  pose proof two1074_pos. destruct (x =? y) eqn:E.
+  - apply Z.eqb_eq in E. subst. apply Z.eqb_refl.
+  - apply Z.eqb_neq in E. apply Z.eqb_neq. nia.
+Qed.
+
+Definition num_of_dval (p : dval) : num :=
+  match p with
+  | DNaN => NNaN
+  | DInf s => NInf s
+  | DFin s e m => NFin (if s then - d_mag e m else d_mag e m)
+  end.
+
+Lemma num_dval p q : EqProofs.dval_ok p -> EqProofs.dval_ok q ->
+  num_eqb (num_of_dval p) (num_of_dval q) = dval_eqb p q.
+Proof.
+  intros Hp Hq. destruct p as [|a|a ea ma], q as [|b|b eb mb]; try reflexivity.
+  cbn [num_of_dval num_eqb].
+  destruct (dval_eqb (DFin a ea ma) (DFin b eb mb)) eqn:E.
+  - apply EqProofs.dval_eqb_spec in E. destruct E as [E _]. inversion E. subst. apply Z.eqb_refl.
+  - apply Z.eqb_neq. intros H.
+    assert (X : DFin a ea ma = DFin b eb mb).
+    { apply (EqProofs.d_scaled_inj _ _ (if b then - d_mag eb mb else d_mag eb mb)); auto.
+      cbn. f_equal. exact H. }
+    rewrite X in E. assert (T : dval_eqb (DFin b eb mb) (DFin b eb mb) = true).
+    { apply EqProofs.dval_eqb_spec. split; [reflexivity|discriminate]. }
+    congruence.
+Qed.
+
+Lemma assoc_member {A} k (l : list (list byte * A)) :
+  assoc k l = match find (fun kv => bytes_eqb (fst kv) k) l with Some kv => Some (snd kv) | None => None end.
+Proof.
+  induction l as [|[k' v] r IH]; [reflexivity|]. cbn. rewrite (EqProofs.bytes_eqb_sym k k').
+  destruct (bytes_eqb k' k); [reflexivity|exact IH].
+Qed.
+
+Lemma forallb_ext_in {A} (f g : A -> bool) (l : list A) :
+  (forall x, In x l -> f x = g x) -> forallb f l = forallb g l.
+Proof.
+  induction l as [|a l IH]; intros H; [reflexivity|]. cbn. rewrite (H a (or_introl eq_refl)), IH; [reflexivity|].
+  intros x Hx. apply H. right. exact Hx.
+Qed.
+
+Lemma all2_true_zlen {A B} (f : A -> B -> bool) : forall la lb, all2 f la lb = true -> zlen la = zlen lb.
+Proof.
+  induction la as [|x ta IH]; intros [|y tb] H; try reflexivity; try discriminate.
+  change (f x y && all2 f ta tb = true) in H. apply andb_true_iff in H. destruct H as [_ H].
+  cbn [zlen]. rewrite (IH tb H). reflexivity.
+Qed.
+
+Lemma all2_zlen {A B} (f : A -> B -> bool) la lb :
+  all2 f la lb = (zlen la =? zlen lb) && all2 f la lb.
+Proof.
+  destruct (all2 f la lb) eqn:E; [|rewrite andb_false_r; reflexivity].
+  rewrite (all2_true_zlen _ _ _ E), Z.eqb_refl. reflexivity.
+Qed.
+
+Lemma bytes_eqb_zlen x y : bytes_eqb x y = (zlen x =? zlen y) && bytes_eqb x y.
+Proof.
+  destruct (bytes_eqb x y) eqn:E; [|rewrite andb_false_r; reflexivity].
+  apply bytes_eqb_eq in E. subst. rewrite Z.eqb_refl. reflexivity.
+Qed.
+
+Theorem rfc_equal_jv_equal : forall a b, same_repr a b = true -> rfc_equal a b = jv_equal a b.
+Proof.
+  induction a as [| b0 | x | x | bx tx | sx | la IH | la IH] using jv_ind'; intros b H.
+  - destruct b; reflexivity.
+  - destruct b; reflexivity.
+  - (* int64 node *)
+    destruct b as [| | y | y | | | |]; try reflexivity; try discriminate.
+    + cbn [rfc_equal num_of num_eqb jv_equal]. apply scaled_eqb.
+    + cbn [rfc_equal num_of num_eqb jv_equal]. rewrite scaled_eqb.
+      cbn [same_repr int_ok] in H. unfold INT64_MIN, INT64_MAX, UINT64_MAX, two64 in *.
+      destruct (x <? 0) eqn:E; [lia|]. rewrite Z.mod_small by lia. reflexivity.
+  - (* uint64 node *)
+    destruct b as [| | y | y | | | |]; try reflexivity; try discriminate.
+    + cbn [rfc_equal num_of num_eqb jv_equal]. rewrite scaled_eqb.
+      cbn [same_repr int_ok] in H. unfold INT64_MIN, INT64_MAX, UINT64_MAX, two64 in *.
+      destruct (y <? 0) eqn:E; [lia|]. rewrite Z.mod_small by lia. reflexivity.
+    + cbn [rfc_equal num_of num_eqb jv_equal]. apply scaled_eqb.
+  - (* double node *)
+    destruct b as [| | y | y | by0 ty | | |]; try reflexivity; try discriminate.
+    cbn [rfc_equal num_of jv_equal].
+    change (num_eqb (num_of_dval (d_decode bx)) (num_of_dval (d_decode by0)) = dval_eqb (d_decode bx) (d_decode by0)).
+    apply num_dval; apply EqProofs.d_decode_ok.
+  - destruct b; try reflexivity. cbn [rfc_equal jv_equal]. apply bytes_eqb_zlen.
+  - (* arrays *)
+    destruct b as [| | | | | | lb |]; try reflexivity. cbn [rfc_equal jv_equal same_repr] in *.
+    rewrite <- all2_zlen. revert lb H. induction IH as [|x ta Hx Ht IHt]; intros [|y tb] H; try reflexivity.
+    cbn [pairwise all2 all2t] in *. apply andb_true_iff in H. destruct H as [H1 H2].
+    rewrite (Hx y H1), (IHt tb H2). reflexivity.
+  - (* objects *)
+    destruct b as [| | | | | | | lb]; try reflexivity. cbn [rfc_equal jv_equal same_repr] in *.
+    f_equal.
+    + rewrite forallb_forall in H. rewrite Forall_forall in IH. apply forallb_ext_in. intros kv Hin.
+      rewrite assoc_member. fold (member lb (fst kv)). specialize (H kv Hin). specialize (IH kv Hin).
+      destruct (member lb (fst kv)) as [w|]; [|reflexivity]. apply IH. exact H.
+    + apply forallb_ext_in. intros kv _. rewrite assoc_member. fold (member la (fst kv)). reflexivity.
+Qed.
+
+(* hence a "test" whose operands are [same_repr] passes the guard: the first recorded deviation is
+   exactly "an integer node compared with a double node" (or an integer outside its C range) *)
+Theorem test_agrees_same_repr doc o :
+  (forall p v path n, op_string o n_path = Some p -> op_member o n_value = Some v ->
+     spec_get doc p = Some (path, n) -> same_repr v n = true) ->
+  test_agrees doc o = true.
+Proof.
+  intros H. unfold test_agrees.
+  destruct (op_string o n_op) as [op|]; [|reflexivity].
+  destruct (op_string o n_path) as [p|] eqn:Ep; [|reflexivity].
+  destruct (op_member o n_value) as [v|] eqn:Ev; [|reflexivity].
+  destruct (bytes_eqb op n_test); [|reflexivity].
+  destruct (spec_get doc p) as [[path n]|] eqn:G; [|reflexivity].
+  rewrite (rfc_equal_jv_equal v n (H p v path n eq_refl eq_refl G)). apply Bool.eqb_reflx.
+Qed.
+
+(* ================================================================ G. statements, deviations, examples *)
+From Coq Require Import String Ascii.
+Local Open Scope string_scope.
+
+(* ---- the statement at full strength: for every target (not the NULL pointer: API domain)
+   and every patch array, under the representation bound only *)
+Definition repr_guard (doc o : jv) : bool := small doc.
+
+Definition apply_conforms_statement : Prop :=
+  forall al, (forall n, al n = true) ->
+  forall target ops, target <> JNull -> run_guard repr_guard ops target = true ->
+  pagree (patch_apply al target (JArr ops)) (spec_ops ops 0 target).
+
+(* ---- what is proved: the same under the exact guards of the two recorded deviations, checked
+   along the run on every document RFC 6902 evaluation passes through:
+     class test_number_representation   [test_agrees]: no "test" where json_object_equal and
+                                        the RFC's equality differ (1 against 1.0)
+     class null_document_root           the document is not JSON null (after a remove / add /
+                                        replace / move at "") when another operation follows *)
+Theorem apply_conforms_partial :
+  forall al, (forall n, al n = true) ->
+  forall target ops, target <> JNull -> run_guard step_guard ops target = true ->
+  pagree (patch_apply al target (JArr ops)) (spec_ops ops 0 target).
+Proof. exact apply_conforms_guarded. Qed.
+
+(* the guards one at a time *)
+Definition guard_no_test (doc o : jv) : bool := small doc && negb (is_null doc).
+Definition guard_no_null (doc o : jv) : bool := small doc && test_agrees doc o.
+
+Definition mkop (op path : string) (more : list (string * jv)) : jv :=
+  JObj ((bs "op", JStr (bs op)) :: (bs "path", JStr (bs path)) :: map (fun kv => (bs (fst kv), snd kv)) more).
+
+Definition dbl_1_0 : Z := 4607182418800017408.          (* 0x3ff0000000000000 = 1.0 *)
+
+(* class test_number_representation: {"a":1}, [{"op":"test","path":"/a","value":1.0}] — RFC 6902
+   section 4.6: numerically equal, the patch succeeds; json_object_equal: different types, ENOENT *)
+Theorem test_number_refuted :
+  exists target ops, target <> JNull /\ run_guard guard_no_test ops target = true /\
+    patch_apply room target (JArr ops) = PFail 0 ENOENT target /\ spec_ops ops 0 target = SDone target.
+Proof.
+  exists (JObj [(bs "a", JInt 1)]), [mkop "test" "/a" [("value", JDouble dbl_1_0 None)]].
+  split; [discriminate|]. vm_compute. repeat split; reflexivity.
+Qed.
+
+(* class null_document_root: {"a":1}, [{"op":"remove","path":""},{"op":"test","path":"","value":null}] —
+   the document is JSON null after the first operation and equal to null; json_pointer_get(NULL) = EINVAL *)
+Theorem null_root_refuted :
+  exists target ops, target <> JNull /\ run_guard guard_no_null ops target = true /\
+    patch_apply room target (JArr ops) = PFail 1 EINVAL JNull /\ spec_ops ops 0 target = SDone JNull.
+Proof.
+  exists (JObj [(bs "a", JInt 1)]), [mkop "remove" "" []; mkop "test" "" [("value", JNull)]].
+  split; [discriminate|]. vm_compute. repeat split; reflexivity.
+Qed.
+
+Theorem apply_conforms_refuted : ~ apply_conforms_statement.
+Proof.
+  intros S. destruct test_number_refuted as (target & ops & Hn & G & M & Sp).
+  assert (G' : run_guard repr_guard ops target = true).
+  { clear - G. revert target G. induction ops as [|o r IH]; intros target G; [reflexivity|].
+    cbn [run_guard] in *. apply andb_true_iff in G. destruct G as [G1 G2].
+    unfold guard_no_test in G1. apply andb_true_iff in G1. destruct G1 as [G1 _].
+    unfold repr_guard. rewrite G1. cbn [andb]. destruct (spec_op target o); auto. }
+  specialize (S room (fun _ => eq_refl) target ops Hn G'). rewrite M, Sp in S. exact S.
+Qed.
+
+(* ---- examples (non-vacuity).  [view]: what a caller sees of a run *)
+Definition view_m (r : pres) : option jv * Z :=
+  match r with PDone d => (Some d, -1) | PFail i _ _ => (None, i) | PArgs => (None, -2) | PUB => (None, -3) end.
+Definition view_s (r : spres) : option jv * Z :=
+  match r with SDone d => (Some d, -1) | SFail i => (None, i) end.
+
+Definition case_holds (c : jv * list jv * (option jv * Z)) : Prop :=
+  let '(target, ops, want) := c in
+  run_guard step_guard ops target = true /\
+  view_m (patch_apply room target (JArr ops)) = want /\ view_s (spec_ops ops 0 target) = want.
+
+Definition Js (s : string) : jv := JStr (bs s).
+Definition Jo (ms : list (string * jv)) : jv := JObj (map (fun kv => (bs (fst kv), snd kv)) ms).
+
+(* RFC 6902 appendix A.1 - A.12, A.14 - A.16 *)
+Definition rfc_cases : list (jv * list jv * (option jv * Z)) := [
+  (Jo [("foo", Js "bar")], [mkop "add" "/baz" [("value", Js "qux")]],
+     (Some (Jo [("foo", Js "bar"); ("baz", Js "qux")]), -1));
+  (Jo [("foo", JArr [Js "bar"; Js "baz"])], [mkop "add" "/foo/1" [("value", Js "qux")]],
+     (Some (Jo [("foo", JArr [Js "bar"; Js "qux"; Js "baz"])]), -1));
+  (Jo [("baz", Js "qux"); ("foo", Js "bar")], [mkop "remove" "/baz" []],
+     (Some (Jo [("foo", Js "bar")]), -1));
+  (Jo [("foo", JArr [Js "bar"; Js "qux"; Js "baz"])], [mkop "remove" "/foo/1" []],
+     (Some (Jo [("foo", JArr [Js "bar"; Js "baz"])]), -1));
+  (Jo [("baz", Js "qux"); ("foo", Js "bar")], [mkop "replace" "/baz" [("value", Js "boo")]],
+     (Some (Jo [("baz", Js "boo"); ("foo", Js "bar")]), -1));
+  (Jo [("foo", Jo [("bar", Js "baz"); ("waldo", Js "fred")]); ("qux", Jo [("corge", Js "grault")])],
+     [mkop "move" "/qux/thud" [("from", Js "/foo/waldo")]],
+     (Some (Jo [("foo", Jo [("bar", Js "baz")]); ("qux", Jo [("corge", Js "grault"); ("thud", Js "fred")])]), -1));
+  (Jo [("foo", JArr [Js "all"; Js "grass"; Js "cows"; Js "eat"])], [mkop "move" "/foo/3" [("from", Js "/foo/1")]],
+     (Some (Jo [("foo", JArr [Js "all"; Js "cows"; Js "eat"; Js "grass"])]), -1));
+  (Jo [("baz", Js "qux"); ("foo", JArr [Js "a"; JInt 2; Js "c"])],
+     [mkop "test" "/baz" [("value", Js "qux")]; mkop "test" "/foo/1" [("value", JInt 2)]],
+     (Some (Jo [("baz", Js "qux"); ("foo", JArr [Js "a"; JInt 2; Js "c"])]), -1));
+  (Jo [("baz", Js "qux")], [mkop "test" "/baz" [("value", Js "bar")]], (None, 0));
+  (Jo [("foo", Js "bar")], [mkop "add" "/child" [("value", Jo [("grandchild", Jo [])])]],
+     (Some (Jo [("foo", Js "bar"); ("child", Jo [("grandchild", Jo [])])]), -1));
+  (Jo [("foo", Js "bar")], [mkop "add" "/baz" [("value", Js "qux"); ("xyz", JInt 123)]],
+     (Some (Jo [("foo", Js "bar"); ("baz", Js "qux")]), -1));
+  (Jo [("foo", Js "bar")], [mkop "add" "/baz/bat" [("value", Js "qux")]], (None, 0));
+  (Jo [("/", JInt 9); ("~1", JInt 10)], [mkop "test" "/~01" [("value", JInt 10)]],
+     (Some (Jo [("/", JInt 9); ("~1", JInt 10)]), -1));
+  (Jo [("/", JInt 9); ("~1", JInt 10)], [mkop "test" "/~01" [("value", Js "10")]], (None, 0));
+  (Jo [("foo", JArr [Js "bar"])], [mkop "add" "/foo/-" [("value", JArr [Js "abc"; Js "def"])]],
+     (Some (Jo [("foo", JArr [Js "bar"; JArr [Js "abc"; Js "def"]])]), -1))
+].
+
+Lemma rfc_examples_hold : Forall case_holds rfc_cases.
+Proof. repeat constructor; vm_compute; reflexivity. Qed.
+
+(* the inputs on which the original json_patch.c left RFC 6902 (repaired; known_findings.json),
+   now conforming: escaped member name in remove and move; "/a" -> "/ab"; copy into own child
+   and onto itself; move of a missing location onto itself; move to index length + 1; a later
+   operation inside an added value and inside a copy; a failing operation behind two good ones *)
+Definition repaired_cases : list (jv * list jv * (option jv * Z)) := [
+  (Jo [("a/b", JInt 1); ("c", JInt 2)], [mkop "remove" "/a~1b" []], (Some (Jo [("c", JInt 2)]), -1));
+  (Jo [("a/b", Jo [("q", JInt 1)]); ("m~n", JInt 3)],
+     [mkop "move" "/c" [("from", Js "/a~1b")]; mkop "remove" "/m~0n" []],
+     (Some (Jo [("c", Jo [("q", JInt 1)])]), -1));
+  (Jo [("a", JInt 1)], [mkop "move" "/ab" [("from", Js "/a")]], (Some (Jo [("ab", JInt 1)]), -1));
+  (Jo [("c", JArr [JInt 1])], [mkop "copy" "/c/0" [("from", Js "/c")]],
+     (Some (Jo [("c", JArr [JArr [JInt 1]; JInt 1])]), -1));
+  (Jo [("a", JArr [JInt 1; JInt 2])], [mkop "copy" "/a/0" [("from", Js "/a/0")]],
+     (Some (Jo [("a", JArr [JInt 1; JInt 1; JInt 2])]), -1));
+  (Jo [("a", Jo [("b", JInt 1)])], [mkop "move" "/a/b" [("from", Js "/a")]], (None, 0));
+  (Jo [("a", JInt 1)], [mkop "move" "/zz" [("from", Js "/zz")]], (None, 0));
+  (Jo [("a", JInt 1)], [mkop "move" "/a" [("from", Js "/a")]], (Some (Jo [("a", JInt 1)]), -1));
+  (Jo [("c", JArr [JInt 1; JInt 2; JInt 3])], [mkop "move" "/c/3" [("from", Js "/c/0")]], (None, 0));
+  (Jo [("c", JArr [JInt 1; JInt 2; JInt 3])], [mkop "move" "/c/2" [("from", Js "/c/0")]],
+     (Some (Jo [("c", JArr [JInt 2; JInt 3; JInt 1])]), -1));
+  (Jo [("x", JInt 1)], [mkop "add" "/a" [("value", Jo [("k", JInt 1)])]; mkop "add" "/a/z" [("value", JInt 2)]],
+     (Some (Jo [("x", JInt 1); ("a", Jo [("k", JInt 1); ("z", JInt 2)])]), -1));
+  (Jo [("x", Jo [("k", JInt 1)])], [mkop "copy" "/y" [("from", Js "/x")]; mkop "add" "/y/z" [("value", JInt 2)]],
+     (Some (Jo [("x", Jo [("k", JInt 1)]); ("y", Jo [("k", JInt 1); ("z", JInt 2)])]), -1));
+  (Jo [("a", JInt 1)], [mkop "add" "/b" [("value", JNull)]; mkop "test" "/b" [("value", JNull)]; mkop "remove" "/nope" []],
+     (None, 2))
+].
+
+Lemma repaired_examples_hold : Forall case_holds repaired_cases.
+Proof. repeat constructor; vm_compute; reflexivity. Qed.
+
+(* malformed patch documents: EINVAL at the operation, never UB (the first three dereferenced
+   NULL in the original code; the fourth was applied as a no-op) *)
+Lemma malformed_examples :
+  let doc := Jo [("a", JInt 1)] in
+  patch_apply room doc (JArr [Jo [("op", JNull); ("path", Js "/a")]]) = PFail 0 EINVAL doc /\
+  patch_apply room doc (JArr [Jo [("op", Js "move"); ("from", JNull); ("path", Js "/a")]]) = PFail 0 EINVAL doc /\
+  patch_apply room doc (JArr [Jo [("op", Js "copy"); ("from", Js "/a"); ("path", JNull)]]) = PFail 0 EINVAL doc /\
+  patch_apply room doc (JArr [Jo [("op", Js "move"); ("from", JInt 5); ("path", JInt 5)]]) = PFail 0 EINVAL doc /\
+  patch_apply room doc (JArr [mkop "add" "/b" [("value", JInt 2)]; JInt 7]) = PFail 1 EINVAL (Jo [("a", JInt 1); ("b", JInt 2)]) /\
+  patch_apply room doc (JInt 7) = PArgs /\ patch_apply room doc JNull = PArgs /\
+  patch_apply room JNull (JArr []) = PArgs /\ patch_apply room doc (JArr []) = PDone doc.
+Proof. vm_compute. repeat split; reflexivity. Qed.
+
+(* the sharing class of the ORIGINAL code (add/replace/copy linked nodes instead of copying them):
+   the two-operation witness of known_findings.json (value_shared) lies outside
+   [no_sharing_hazard], a patch that places scalars only lies inside.  With the repaired code
+   ([placed_value] = a copy) the pure model is faithful on both. *)
+Lemma sharing_class_examples :
+  no_sharing_hazard room (Jo [("x", JInt 1)])
+    (JArr [mkop "add" "/a" [("value", Jo [("k", JInt 1)])]; mkop "add" "/a/z" [("value", JInt 2)]]) = false /\
+  no_sharing_hazard room (Jo [("x", Jo [("k", JInt 1)])])
+    (JArr [mkop "copy" "/y" [("from", Js "/x")]; mkop "add" "/y/z" [("value", JInt 2)]]) = false /\
+  no_sharing_hazard room (Jo [("x", JInt 1)])
+    (JArr [mkop "add" "/a" [("value", JInt 7)]; mkop "copy" "/b" [("from", Js "/a")]; mkop "add" "/c" [("value", Jo [])]]) = true.
+Proof. vm_compute. repeat split; reflexivity. Qed.
